@@ -269,7 +269,11 @@ public:
 struct upload_data {
 	long raw_bytes, raw_chunks, new_files, progress, ready, end_of_content, errors; uint64_t raw_hash; std::string names;
 	char abort_kind; long abort_n; int abort_code;      // the filter throws abort_upload(code) at the n-th event of that kind
-	upload_data() : raw_bytes(0), raw_chunks(0), new_files(0), progress(0), ready(0), end_of_content(0), errors(0), raw_hash(1469598103934665603ull), abort_kind(0), abort_n(0), abort_code(0) {}
+	char read_kind;                                     // the filter reads the part's data stream to its end in on_data_ready ('r') or on_upload_progress ('p'), as an inspecting filter does
+	char release_kind; long release_n;                  // the filter takes itself off the request (release_content_filter) at the n-th event of that kind
+	long inspected_bytes;
+	upload_data() : raw_bytes(0), raw_chunks(0), new_files(0), progress(0), ready(0), end_of_content(0), errors(0), raw_hash(1469598103934665603ull), abort_kind(0), abort_n(0), abort_code(0), read_kind(0), release_kind(0), release_n(0), inspected_bytes(0) {}
+	void inspect(cppcms::http::file &f) { char buf[256]; std::istream &in = f.data(); while (in.read(buf, sizeof buf) || in.gcount() > 0) inspected_bytes += (long)in.gcount(); }
 	void set_abort(std::string const &v) { if (v.size() < 2) return; abort_kind = v[0]; abort_n = atol(v.c_str() + 1); size_t dot = v.find('.'); abort_code = dot == std::string::npos ? 403 : atoi(v.c_str() + dot + 1); }
 	void maybe_abort(char kind, long count) { if (abort_kind == kind && count == abort_n) throw cppcms::http::abort_upload(abort_code); }
 };
@@ -277,9 +281,10 @@ class upload_app : public cppcms::application, public cppcms::http::multipart_fi
 public:
 	upload_app(cppcms::service &s) : cppcms::application(s) {}
 	upload_data *d() { return context().get_specific<upload_data>(); }
-	void on_new_file(cppcms::http::file &f) { if (!d()) return; d()->new_files++; d()->names += f.name() + ";"; d()->maybe_abort('n', d()->new_files); }
-	void on_upload_progress(cppcms::http::file &) { if (d()) { d()->progress++; d()->maybe_abort('p', d()->progress); } }
-	void on_data_ready(cppcms::http::file &) { if (d()) { d()->ready++; d()->maybe_abort('r', d()->ready); } }
+	void maybe_release(char kind, long count) { if (d()->release_kind == kind && count == d()->release_n) request().release_content_filter(); }
+	void on_new_file(cppcms::http::file &f) { if (!d()) return; d()->new_files++; d()->names += f.name() + ";"; d()->maybe_abort('n', d()->new_files); maybe_release('n', d()->new_files); }
+	void on_upload_progress(cppcms::http::file &f) { if (d()) { d()->progress++; d()->maybe_abort('p', d()->progress); if (d()->read_kind == 'p') d()->inspect(f); maybe_release('p', d()->progress); } }
+	void on_data_ready(cppcms::http::file &f) { if (d()) { d()->ready++; d()->maybe_abort('r', d()->ready); if (d()->read_kind == 'r') d()->inspect(f); maybe_release('r', d()->ready); } }
 	void on_end_of_content() { if (d()) { d()->end_of_content++; d()->maybe_abort('e', d()->end_of_content); } }
 	void on_error() { upload_data *u = d(); if (u) u->errors++; ev("{\"ev\":\"on_error\",\"app\":\"upload\",\"token\":" + jstr(token_of(request())) + ",\"errors\":" + std::to_string(u ? u->errors : -1) + "}"); }
 	void main(std::string url)
@@ -293,11 +298,13 @@ public:
 			if ((v = request().get("mem_limit")) != "") request().limits().file_in_memory_limit((size_t)atoll(v.c_str()));
 			if ((v = request().get("setbuf")) != "") request().setbuf(atoi(v.c_str()));
 			if ((v = request().get("abort")) != "") d()->set_abort(v);
+			if ((v = request().get("read")) != "") d()->read_kind = v[0];
+			if ((v = request().get("release")).size() >= 2) { d()->release_kind = v[0]; d()->release_n = atol(v.c_str() + 1); }
 			ev("{\"ev\":\"headers\",\"app\":\"upload\",\"token\":" + jstr(token_of(request())) + "}");
 			return;
 		}
 		upload_data *u = d();
-		std::string extra = u ? ("new_files=" + std::to_string(u->new_files) + " ready=" + std::to_string(u->ready) + " progress=" + std::to_string(u->progress) + " eoc=" + std::to_string(u->end_of_content) + " errors=" + std::to_string(u->errors)) : "nodata";
+		std::string extra = u ? ("new_files=" + std::to_string(u->new_files) + " ready=" + std::to_string(u->ready) + " progress=" + std::to_string(u->progress) + " eoc=" + std::to_string(u->end_of_content) + " errors=" + std::to_string(u->errors) + " inspected=" + std::to_string(u->inspected_bytes)) : "nodata";
 		response().set_header("X-Filter", extra);
 		echo_body(*this, url, "upload");
 	}
